@@ -3,6 +3,7 @@ mod c01;
 mod c02;
 mod c06;
 mod c07;
+mod c09;
 mod tracegen;
 mod c17;
 mod probe;
@@ -52,6 +53,7 @@ fn main() {
         "C17" => c17::run(&mut ctx),
         "C06" => c06::run(&mut ctx),
         "C07" => c07::run(&mut ctx),
+        "C09" => c09::run(&mut ctx),
         "C10" => c10::run(&mut ctx),
         "C11" => c11::run(&mut ctx),
         "C13" => c13::run(&mut ctx),
